@@ -297,3 +297,19 @@ package model
 //@   ensures C16.retransmit: len(t.P0x9212RetransmitPacketList) > 0 ==> result0[2+len(t.FileName)] == 1 && int(result0[3+len(t.FileName)]) == len(t.P0x9212RetransmitPacketList)
 //@   ensures C16.pairs: forall(k, 0, len(t.P0x9212RetransmitPacketList), be32(result0, 4+len(t.FileName)+8*k) == t.P0x9212RetransmitPacketList[k].DataOffset && be32(result0, 8+len(t.FileName)+8*k) == t.P0x9212RetransmitPacketList[k].DataLength)
 //@   ensures C16.list: len(t.P0x9212RetransmitPacketList) == old(len(t.P0x9212RetransmitPacketList))
+
+// ---------------------------------------------------------------------------------------------
+// C14: the 0x8003 re-request body: original serial (2 bytes), count (1 byte), count package numbers (2 bytes each)
+// ---------------------------------------------------------------------------------------------
+//@ func (*P0x8003).Encode
+//@   mode contract
+//@   modifies nothing
+//@   ensures C14.fresh: fresh(result)
+//@   ensures C14.len: len(result) == 3 + 2*len(p.AgainPackageList)
+//@   ensures C14.head: be16(result, 0) == p.OriginalSerialNumber && result[2] == p.AgainPackageCount
+//@   ensures C14.list: forall(k, 0, len(p.AgainPackageList), be16(result, 3+2*k) == p.AgainPackageList[k])
+//@   loop 1 invariant idx: 0 - 1 <= rangeindex && rangeindex < len(p.AgainPackageList)
+//@   loop 1 invariant fresh: fresh(data)
+//@   loop 1 invariant len: len(data) == 3 + 2*(rangeindex+1)
+//@   loop 1 invariant head: be16(data, 0) == p.OriginalSerialNumber && data[2] == p.AgainPackageCount
+//@   loop 1 invariant list: forall(k, 0, rangeindex+1, be16(data, 3+2*k) == p.AgainPackageList[k])
